@@ -1,8 +1,8 @@
 """Development aid:  python3-vt -m pyvc.debug <qualified-name-substring>  -- prints every path."""
-import sys, threading
+import os, sys, threading
 sys.setrecursionlimit(20000)
 threading.stack_size(256 * 1024 * 1024)
-from . import check, verify, smt
+from . import check, verify, smt, re_model
 from .path import PathState, PathAbort, RetryPath, Unsupported
 from .interp import Interp, PyRaise
 import z3, traceback
@@ -36,9 +36,13 @@ def run(sub):
                     print('       goal', str(goal)[:1500])
                     if v.status == 'sat':
                         print('       model', smt.model_to_dict(v.model))
+                    if '--split' in sys.argv and z3.is_and(goal):
+                        for ci, conj in enumerate(goal.children()):
+                            v2 = smt.discharge(pc, conj)
+                            print('       conjunct %d: %s [%.2fs] %s' % (ci, v2.status, v2.time, str(conj)[:300].replace('\n', ' ')))
                     if '--pc' in sys.argv:
                         for t in pc:
-                            print('       pc  ', str(t)[:300])
+                            print('       pc  ', str(t)[:int(os.environ.get('PYVC_PC_WIDTH', '300'))])
 
 
 if __name__ == '__main__':
